@@ -4,6 +4,7 @@
 #include <string.h>
 #include <stdarg.h>
 #include "verif.h"
+#include "express/scope.h"   /* first inclusion must be the rewritten copy (union -> struct), see unit.json */
 /* ---- ghost: record of fprintf calls ---- */
 int g_pf_calls; const char *g_pf_last_fmt; long g_pf_int_args[4]; int g_pf_has_d;
 static int verif_fprintf(FILE *f, const char *fmt, ...);
@@ -22,5 +23,21 @@ static char *verif_strncpy(char *d, const char *s, size_t n)
 #include "src/exp2cxx/classes_type.c"
 #undef fprintf
 #undef strncpy
-static int verif_fprintf(FILE *f, const char *fmt, ...) { (void)f; g_pf_calls++; g_pf_last_fmt = fmt; return 0; }
+static int contains(const char *h, const char *n)
+{
+    for (int i = 0; i < 120 && h[i]; i++) { int j = 0; while (j < 40 && n[j] && h[i + j] == n[j]) j++; if (!n[j]) return 1; }
+    return 0;
+}
+/* records, for a format that contains the conversion "( %d )" of SetBoundN, the integer it is given */
+int g_bound_d_calls; int g_bound_d_value; int g_funcall_calls; int g_accessor_calls;
+static int verif_fprintf(FILE *f, const char *fmt, ...)
+{
+    va_list ap; (void)f; g_pf_calls++; g_pf_last_fmt = fmt;
+    va_start(ap, fmt);
+    if (contains(fmt, "SetBound%d( %d )")) { (void)va_arg(ap, const char *); (void)va_arg(ap, int); g_bound_d_value = va_arg(ap, int); g_bound_d_calls++; }
+    else if (contains(fmt, "FromExpressFuncall")) g_funcall_calls++;
+    else if (contains(fmt, "FromMemberAccessor")) g_accessor_calls++;
+    va_end(ap);
+    return 0;
+}
 #include "harnesses.c"
